@@ -1,11 +1,11 @@
 (* C06 — case type and the two boolean functions evaluated on generated cases. *)
 From Coq Require Import List Bool ZArith.
-From V Require Import C01.Model C06.Model C06.Search.
+From V Require Import C01.Model C06.Model C06.Search C06.LexCheck.
 Import ListNotations.
 Open Scope Z_scope.
 
 Inductive case :=
-| CIso (P G : graph) (sym : bool) (cs : list (Z * Z)) (impl : list mapping)     (* find_isomorphisms; cons: the constraints the implementation derived *)
+| CIso (P G : graph) (sym : bool) (cs : list (Z * Z)) (base : option (list Z)) (impl : list mapping)     (* find_isomorphisms; cons: the constraints the implementation derived *)
 | CLcs (P G : graph) (sym : bool) (impl : list mapping)                           (* largest_common_subgraph *)
 | CSession (steps : list case).                                                   (* runs sharing one symmetry cache *)
 
@@ -19,14 +19,20 @@ Definition asym (cs : list (Z * Z)) : bool :=
 Fixpoint corr (k : case) : bool :=
   match k with
   | CSession steps => forallb corr steps
-  | CIso P G sym cs impl =>
+  | CIso P G sym cs base impl =>
       asym cs && sets_equal (find_isomorphisms P G cs (fun l _ => hd 0 l)) impl
+      (* certificate for the lex-leader theorem: the automorphisms form a group and the constraints are those of a
+         stabiliser chain over the proposed base (then exactly one member of every class satisfies them) *)
+      && match base with
+         | Some b => let A := autos P in groupb (keys P) A && chainb (keys P) A cs b
+         | None => true
+         end
   | CLcs P G sym impl => forallb (is_common P G) impl
   end.
 
 Fixpoint prop (k : case) : bool :=
   match k with
   | CSession steps => forallb prop steps
-  | CIso P G sym _ impl => if sym then check_sym P G impl else check_full P G impl
+  | CIso P G sym _ _ impl => if sym then check_sym P G impl else check_full P G impl
   | CLcs P G sym impl => check_lcs P G sym impl
   end.
